@@ -275,7 +275,7 @@ func c18GenOps(T *Tape, sc *sharedCodecs, task int, n int, fo *c18Focus) []share
 			}})
 		default: // CQL value codecs: package singletons and shared composite codecs
 			v := versions[T.Draw("version", len(versions))]
-			k := T.Draw("dtype", 21)
+			k := T.Draw("dtype", 23)
 			if fo.kind == 4 && T.Bool("samedtype", 0.7) {
 				k = fo.dtype
 				if k >= 18 {
@@ -335,8 +335,19 @@ func c18Value(sc *sharedCodecs, k int, x int64, v primitive.ProtocolVersion) (in
 		var d float32
 		return rtrip(datacodec.Float, float32(x)/3, &d)
 	case 7:
+		// lengths from 1 to ~40 bytes, both signs (x is negative half of the time)
 		var d *big.Int
-		return rtrip(datacodec.Varint, new(big.Int).Mul(big.NewInt(x), big.NewInt(1<<40)), &d)
+		return rtrip(datacodec.Varint, new(big.Int).Lsh(big.NewInt(x), uint(8*((x&0xff)%40))), &d)
+	case 21:
+		var d datacodec.CqlDecimal
+		return rtrip(datacodec.Decimal, datacodec.CqlDecimal{Unscaled: new(big.Int).Lsh(big.NewInt(x), uint(8*((x>>3&0xff)%30))), Scale: int32(x % 1000)}, &d)
+	case 22:
+		if !(v == primitive.ProtocolVersion5 || v.IsDse()) {
+			var d int64
+			return rtrip(datacodec.Bigint, x, &d)
+		}
+		var d datacodec.CqlDuration
+		return rtrip(datacodec.Duration, datacodec.CqlDuration{Months: int32(x), Days: int32(x * 31), Nanos: time.Duration(x) * 1000003}, &d)
 	case 8:
 		var d time.Time
 		return rtrip(datacodec.Timestamp, time.Unix(x, 0).UTC(), &d)
@@ -415,7 +426,7 @@ func c18Share(r *Run) {
 	if T.Bool("focus", 0.4) {
 		fo.kind = 1 + T.Draw("focus.kind", 5)
 		fo.codec = T.Draw("focus.codec", 6)
-		fo.dtype = 11 + T.Draw("focus.dtype", 10)
+		fo.dtype = []int{11, 12, 13, 14, 16, 17, 18, 19, 20, 7, 21, 22, 7, 21, 22}[T.Draw("focus.dtype", 15)]
 		fo.growing = T.Bool("focus.growing", 0.5)
 		M = 3 + T.Draw("focus.tasks", 4)
 	}
